@@ -355,16 +355,26 @@ func (ReadFileEngine) Run(prop string, ci any) *core.Outcome {
 					onlyNonAltering = false // e.g. a garbled retry after the rejected oversize response: undetectable in the clear
 				}
 			}
+			// every oversized response that fired must be one the terminal can notice (more data than Le asked for): a chip
+			// that answered short plus a few surplus bytes within Le is indistinguishable from a genuine answer
+			sawOversize, allNoticeable := false, true
 			for k, kind := range link.FaultAt {
-				if !onlyNonAltering {
-					break
-				}
-				if kind != "resp_oversize" || k >= len(link.Cmds) || k >= len(link.Delivered) {
+				if kind != "resp_oversize" {
 					continue
 				}
-				if p, perr := chip.ParseCAPDU(link.Cmds[k]); perr == nil && p.INS == 0xB0 && p.HasLe && len(link.Delivered[k])-2 > p.Le {
-					detectable = true
+				sawOversize = true
+				noticeable := false
+				if k < len(link.Cmds) && k < len(link.Delivered) {
+					if p, perr := chip.ParseCAPDU(link.Cmds[k]); perr == nil && p.INS == 0xB0 && p.HasLe && len(link.Delivered[k])-2 > p.Le {
+						noticeable = true
+					}
 				}
+				if !noticeable {
+					allNoticeable = false
+				}
+			}
+			if c.Suite == "" && onlyNonAltering && sawOversize && allNoticeable {
+				detectable = true
 			}
 			if detectable {
 				out.Violate("C11", "file-differs", "readfile/"+kinds, "ReadFile (suite %q, maxLe %d) returned %d bytes that differ from the chip's %d-byte file under link faults %v", c.Suite, c.MaxLe, len(data), len(file), faults)
